@@ -94,6 +94,43 @@ theorem uniqueLabels_sound (d : Diagram) (h : d.uniqueLabels = true) : LabelsUni
   simp only [Bool.and_eq_true] at h
   exact ⟨(nodupStr_iff _).mp h.1, (nodupStr_iff _).mp h.2⟩
 
+theorem nodupKeys_iff (l : List Path) : nodupKeys l = true ↔ (l.map keyOf).Nodup := by
+  induction l with
+  | nil => simp [nodupKeys]
+  | cons a r ih =>
+    simp only [nodupKeys, Bool.and_eq_true, Bool.not_eq_true', List.map_cons, List.nodup_cons, ih]
+    constructor
+    · rintro ⟨h1, h2⟩
+      refine ⟨?_, h2⟩
+      intro hmem
+      rcases List.mem_map.mp hmem with ⟨q, hq, hqa⟩
+      have : (r.any fun q => samePath a q) = true := by
+        rw [List.any_eq_true]
+        exact ⟨q, hq, by simp [samePath, hqa]⟩
+      rw [this] at h1; cases h1
+    · rintro ⟨h1, h2⟩
+      refine ⟨?_, h2⟩
+      cases hany : (r.any fun q => samePath a q) with
+      | false => rfl
+      | true =>
+        rw [List.any_eq_true] at hany
+        rcases hany with ⟨q, hq, hs⟩
+        exfalso
+        apply h1
+        have : keyOf a = keyOf q := by simpa [samePath] using hs
+        rw [this]
+        exact List.mem_map.mpr ⟨q, hq, rfl⟩
+
+/-- the object half of `IdsUnique` is what well-formedness (`Diagram.wf`, checked on every returned graph) gives -/
+theorem wf_objs_ids_unique (d : Diagram) (h : d.wf = true) : (d.objs.map Spec.Obj.id).Nodup := by
+  unfold Diagram.wf at h
+  simp only [Bool.and_eq_true] at h
+  have hk := (nodupKeys_iff _).mp h.1.1.1.2
+  have : d.objs.map Spec.Obj.id = ((d.objs.map (·.path)).map keyOf).map Spec.Id.obj := by
+    simp [List.map_map, Function.comp_def, Spec.Obj.id]
+  rw [this]
+  exact nodup_map_inj _ (fun a b hab => by cases hab; rfl) hk
+
 /-- non-vacuity: a diagram with a container, a child, two parallel connections; deleting the container -/
 def exDiagram : Diagram :=
   { objs := [⟨["a"], "L1", []⟩, ⟨["a", "b"], "L2", []⟩, ⟨["c"], "L3", []⟩],
